@@ -9,13 +9,14 @@ DIR="${1:-seeded}"; PAT="${2:-*}"
 IDS=$(python3 -c "import json;print(' '.join(c['property_id'] for c in json.load(open('MANIFEST.json'))['checks']))")
 for d in $DIR/$PAT/; do
   p="$d/patch.diff"; [ -f "$p" ] || continue
-  git -C "$REPO" apply "$PWD/$p" 2>/dev/null || { echo "$(basename $d): APPLY-FAILED"; continue; }
+  case "$p" in /*) ap="$p";; *) ap="$PWD/$p";; esac
+  (cd "$REPO" && git apply "$ap") 2>/dev/null || { echo "$(basename $d): APPLY-FAILED"; continue; }
   hit=""; und=""
   for id in $IDS; do
     out=$(bin/rdpgwlint -property $id -tier quick -repo "$REPO" 2>&1); rc=$?
     if [ $rc -eq 1 ]; then hit="$hit $id"; echo "$out" | grep -q "undecided" && und="$und $id"; fi
     [ $rc -ge 2 ] && hit="$hit $id(ERR)"
   done
-  git -C "$REPO" checkout -q -- . ; git -C "$REPO" clean -fdq -- cmd shared 2>/dev/null
+  (cd "$REPO" && git apply -R "$ap") || echo "UNDO-FAILED $d"
   echo "$(basename $d): reported_by:$hit | via-undecided:$und"
 done
